@@ -54,14 +54,20 @@ type buildResult struct {
 	stats *instr.Stats
 }
 
+// build variants: plain (map seam + step counters), sched (map seam + scheduler rewrites),
+// sched+race (the same under the race detector).
 func build(race bool, tag string, patch map[string][]byte) (*buildResult, error) {
-	work := filepath.Join(verifDir, ".work", fmt.Sprintf("%s-%d", tag, os.Getpid()))
+	return buildV(race, race, tag, patch)
+}
+
+func buildV(sched, race bool, tag string, patch map[string][]byte) (*buildResult, error) {
+	work := filepath.Join(verifDir, ".work", fmt.Sprintf("%s-%d-%v%v", tag, os.Getpid(), sched, race))
 	os.RemoveAll(work)
 	if err := os.MkdirAll(work, 0o755); err != nil {
 		return nil, err
 	}
 	opts := instr.Options{Repo: repoDir, ShimDir: filepath.Join(verifDir, "shim"), Work: work,
-		MapSeam: true, Steps: !race, Sched: race, Dump: true, Patch: patch}
+		MapSeam: true, Steps: !sched, Sched: sched, Dump: true, Patch: patch}
 	ov, st, err := instr.Generate(opts)
 	if err != nil {
 		return nil, fmt.Errorf("instrument: %v", err)
@@ -218,63 +224,32 @@ func cmdCheck(args []string) int {
 			dl = v
 		}
 	}
-	parts := make([]*report.Part, n)
-	errs := make([]string, n)
-	var wg sync.WaitGroup
-	for i := 0; i < n; i++ {
-		wg.Add(1)
-		go func(i int) {
-			defer wg.Done()
-			out := filepath.Join(br.work, fmt.Sprintf("part-%d.json", i))
-			a := []string{"-check", id, "-tier", tier, "-shard", strconv.Itoa(i), "-nshards", strconv.Itoa(n), "-out", out,
-				"-findings", filepath.Join(verifDir, "known_findings.json"), "-deadline", fmt.Sprintf("%ds", dl)}
-			if extra != "" {
-				a = append(a, "-args", extra)
-			}
-			// memory ceiling per worker; hang watchdog = internal deadline + grace
-			sh := fmt.Sprintf("ulimit -v %d; exec \"$0\" \"$@\"", 6*1024*1024)
-			cmd := exec.Command("/bin/sh", append([]string{"-c", sh, br.bin}, a...)...)
-			if race {
-				// the race runtime reserves a large virtual address range: no ulimit -v
-				cmd = exec.Command(br.bin, a...)
-			}
-			cmd.Env = workerEnv(race, br.work, i)
-			var stderr bytes.Buffer
-			cmd.Stderr = &stderr
-			cmd.Stdout = &stderr
-			if err := cmd.Start(); err != nil {
-				errs[i] = err.Error()
-				return
-			}
-			done := make(chan error, 1)
-			go func() { done <- cmd.Wait() }()
-			select {
-			case err := <-done:
-				if err != nil {
-					code := -1
-					if ee, ok := err.(*exec.ExitError); ok {
-						code = ee.ExitCode()
-					}
-					// race builds exit 66 when reports exist: not an error of the worker
-					if !(race && code == 66) {
-						errs[i] = fmt.Sprintf("worker %d: %v\n%s", i, err, tail(stderr.String(), 4000))
-					}
-				}
-			case <-time.After(time.Duration(dl+120) * time.Second):
-				cmd.Process.Kill()
-				errs[i] = fmt.Sprintf("worker %d: killed by watchdog after %ds (hang)\n%s", i, dl+120, tail(stderr.String(), 2000))
-			}
-			p, err := report.Read(out)
-			if err != nil {
-				if errs[i] == "" {
-					errs[i] = fmt.Sprintf("worker %d wrote no report: %v\n%s", i, err, tail(stderr.String(), 2000))
-				}
-				return
-			}
-			parts[i] = p
-		}(i)
+	// Scheduler checks run in two passes: the logical oracles over the full preemption bound
+	// on the scheduler build WITHOUT the race detector (8x faster), then the race oracle on
+	// the -race build at a smaller bound (with the transparent hand-off a race is reported
+	// in any schedule that executes both accesses, so few schedules are needed).
+	type pass struct {
+		br   *buildResult
+		race bool
+		n    int
 	}
-	wg.Wait()
+	passes := []pass{{br, race, n}}
+	if race {
+		nb, err := buildV(true, false, id+"-norace", patchOverride)
+		if err != nil {
+			fail("%v", err)
+		}
+		defer os.RemoveAll(nb.work)
+		passes = []pass{{nb, false, n}, {br, true, n}}
+		dl = dl / 2
+	}
+	var parts []*report.Part
+	var errs []string
+	for pi, ps := range passes {
+		pp, ee := runWorkers(ps.br, ps.race, id, tier, extra, ps.n, dl, pi)
+		parts = append(parts, pp...)
+		errs = append(errs, ee...)
+	}
 	var good []*report.Part
 	harnessBad := false
 	for i := range parts {
@@ -390,6 +365,67 @@ func cmdCheck(args []string) int {
 		return 2
 	}
 	return 0
+}
+
+func runWorkers(br *buildResult, race bool, id, tier, extra string, n, dl, pass int) ([]*report.Part, []string) {
+	parts := make([]*report.Part, n)
+	errs := make([]string, n)
+	var wg sync.WaitGroup
+	for i := 0; i < n; i++ {
+		wg.Add(1)
+		go func(i int) {
+			defer wg.Done()
+			out := filepath.Join(br.work, fmt.Sprintf("part-%d.json", i))
+			a := []string{"-check", id, "-tier", tier, "-shard", strconv.Itoa(i), "-nshards", strconv.Itoa(n), "-out", out,
+				"-findings", filepath.Join(verifDir, "known_findings.json"), "-deadline", fmt.Sprintf("%ds", dl)}
+			if extra != "" {
+				a = append(a, "-args", extra)
+			}
+			// memory ceiling per worker; hang watchdog = internal deadline + grace
+			sh := fmt.Sprintf("ulimit -v %d; exec \"$0\" \"$@\"", 6*1024*1024)
+			cmd := exec.Command("/bin/sh", append([]string{"-c", sh, br.bin}, a...)...)
+			if race {
+				// the race runtime reserves a large virtual address range: no ulimit -v
+				cmd = exec.Command(br.bin, a...)
+			}
+			cmd.Env = workerEnv(race, br.work, i)
+			var stderr bytes.Buffer
+			cmd.Stderr = &stderr
+			cmd.Stdout = &stderr
+			if err := cmd.Start(); err != nil {
+				errs[i] = err.Error()
+				return
+			}
+			done := make(chan error, 1)
+			go func() { done <- cmd.Wait() }()
+			select {
+			case err := <-done:
+				if err != nil {
+					code := -1
+					if ee, ok := err.(*exec.ExitError); ok {
+						code = ee.ExitCode()
+					}
+					// race builds exit 66 when reports exist: not an error of the worker
+					if !(race && code == 66) {
+						errs[i] = fmt.Sprintf("worker %d: %v\n%s", i, err, tail(stderr.String(), 4000))
+					}
+				}
+			case <-time.After(time.Duration(dl+120) * time.Second):
+				cmd.Process.Kill()
+				errs[i] = fmt.Sprintf("worker %d: killed by watchdog after %ds (hang)\n%s", i, dl+120, tail(stderr.String(), 2000))
+			}
+			p, err := report.Read(out)
+			if err != nil {
+				if errs[i] == "" {
+					errs[i] = fmt.Sprintf("worker %d wrote no report: %v\n%s", i, err, tail(stderr.String(), 2000))
+				}
+				return
+			}
+			parts[i] = p
+		}(i)
+	}
+	wg.Wait()
+	return parts, errs
 }
 
 func collectRaceLogs(work string) []string {
